@@ -299,3 +299,46 @@ static inline void unwitness(const int *w, TK *m, int *args) {
   m->ghost_c.data = malloc(sizeof(int) * (LC + 1)); m->ghost_c.size = nc; m->ghost_c.cap = LC; for (unsigned long c = 0; c < LC; c++) m->ghost_c.data[c] = w[p++];
   args[3] = w[p++];
 }
+
+/* ------------------------------------------------------------------ closure / usage spec functions (C02) */
+static inline _Bool spec_vertex_used(const TK *m, int v) {   /* some live edge has v as an endpoint */
+  _Bool r = 0;
+  for (unsigned long e = 0; e < LE; e++) if (e < m->edges_.size && !EDEL(m, e) && (EFROM(m, e) == v || ETO(m, e) == v)) r = 1;
+  return r;
+}
+static inline _Bool spec_edge_used(const TK *m, int e) {     /* some live face lists a halfedge of e */
+  _Bool r = 0;
+  for (unsigned long f = 0; f < LF; f++) if (f < m->faces_.size && !FDEL(m, f))
+    for (unsigned long k = 0; k < LFV; k++) if (k < FVAL(m, f) && (FHE(m, f, k) >> 1) == e) r = 1;
+  return r;
+}
+static inline _Bool spec_face_used(const TK *m, int f) {     /* some live cell lists a halfface of f */
+  _Bool r = 0;
+  for (unsigned long c = 0; c < LC; c++) if (c < m->cells_.size && !CDEL(m, c))
+    for (unsigned long k = 0; k < LCV; k++) if (k < CVAL(m, c) && (CHF(m, c, k) >> 1) == f) r = 1;
+  return r;
+}
+
+/* ------------------------------------------------------------------ contract of reorder_incident_halffaces, as a stub
+ * (assume-guarantee: callers are verified against this text; the real function is verified against the same
+ * contract in obligations/reorder.py). requires: both caches the function indexes are enabled, edge in range.
+ * ensures: the incident-halfface lists of the edge's two halfedges are permuted (multiset preserved); nothing
+ * else changes. */
+static inline void reorder_contract_effect(TK *m, int e) {
+#ifndef NATIVE_REPLAY
+  if (!(m->e_bottom_up_ && e >= 0 && (unsigned long)(2 * e + 1) < m->incident_hfs_per_he_.size)) return;
+  for (int s = 0; s < 2; s++) {
+    int he = 2 * e + s;
+    int old[LINC];
+    unsigned long n = INCN(m, he);
+    __CPROVER_assume(n <= LINC);
+    for (unsigned long k = 0; k < LINC; k++) if (k < n) { old[k] = INC(m, he, k); m->incident_hfs_per_he_.data[he].data[k].idx_ = nondet_int(); }
+    for (unsigned long hf = 0; hf < 2 * LF; hf++) {
+      unsigned long a = 0, b = 0;
+      for (unsigned long k = 0; k < LINC; k++) if (k < n) { if (old[k] == (int)hf) a++; if (INC(m, he, k) == (int)hf) b++; }
+      __CPROVER_assume(a == b);
+    }
+    for (unsigned long k = 0; k < LINC; k++) if (k < n) __CPROVER_assume(INC(m, he, k) >= 0 && (unsigned long)INC(m, he, k) < 2 * LF);
+  }
+#endif
+}
